@@ -103,12 +103,35 @@ def native_unit_text(u, under):
     else:
       o.append('''static void randomize(void) { for (struct mem *m = mems; m->n; m++) *m->p = rndp(); pi = PI = acosl(-1.0L);%s }''' % (
         ''.join(' %s_size = 1 + (int)(drand48() * 6); %s_size_r = %s_size; for (int i = 0; i < VF_VECMAX; i++) %s[i] = rnd();' % (v, v, v, v) for v in u.decl.vectors)))
+    statics = [g for f_ in u.funcs for (g, ty_, n_, d_) in getattr(f_, 'statics', [])]
+    o.append('/* rule SLs: function-local statics are process-wide state -> every sample is a two-call history (warm-up in one state, then the compared call) */')
+    o.append('static void reset_statics(void) { %s }' % ' '.join('%s__init = 0;' % g for g in statics))
+    o.append('static Sc warm_vals[%d];' % (len(u.decl.scalars) + 1))
+    o.append('static void save_warm(void) { int i = 0; for (struct mem *m = mems; m->n; m++) warm_vals[i++] = *m->p; }')
+    o.append('static void dump_warm(void) { int i = 0; printf(", \\"warm_members\\": {"); for (struct mem *m = mems; m->n; m++) printf("%s\\"%s\\": \\"%.21Lg\\"", m == mems ? "" : ", ", m->n, warm_vals[i++]); printf("}"); }')
     o.append('static void dump(void) { printf("\\"members\\": {"); for (struct mem *m = mems; m->n; m++) printf("%s\\"%s\\": \\"%.21Lg\\"", m == mems ? "" : ", ", m->n, *m->p); printf("}"); }')
     o.append('int main(int argc, char **argv) {\n  const char *fn = argv[1]; long seed = atol(argv[2]); long N = atol(argv[3]); srand48(seed); long tried = 0, evald = 0;')
     for f in under:
         sc = [(t, n, k) for t, n, k in f.args]
         o.append('  if (!strcmp(fn, "%s")) {' % f.cname)
-        o.append('    for (long it = 0; it < N; it++) { randomize(); vf_assume_failed = 0; ghost_msg = ghost_exit = ghost_nan = 0;')
+        o.append('    for (long it = 0; it < N; it++) {')
+        wnames = []
+        if statics and f.ret == 'Sc':
+            o.append('      reset_statics(); randomize(); vf_assume_failed = 0;')
+            for t, n, k in sc:
+                if k == 'scalar' and n in getattr(u, 'arg_box', {}):
+                    lo_, hi_ = u.arg_box[n]
+                    o.append('      Sc w_%s = (Sc)(%r + (%r - %r) * drand48());' % (n, lo_, hi_, lo_))
+                elif k == 'scalar':
+                    o.append('      Sc w_%s = rnd();' % n)
+                elif k == 'int':
+                    o.append('      int w_%s = 1;' % n)
+                else:
+                    o.append('      int w_%s = 0;' % n)
+                wnames.append('w_' + n)
+            wl = ', '.join(wnames)
+            o.append('      { Sc ww_ = 0; if (!twin_%s(%s&ww_)) continue; (void)%s(%s); if (vf_assume_failed) continue; save_warm(); }' % (f.cname, wl + (', ' if wl else ''), f.cname, wl))
+        o.append('      randomize(); vf_assume_failed = 0; ghost_msg = ghost_exit = ghost_nan = 0;')
         names = []
         for t, n, k in sc:
             if k == 'scalar' and n in getattr(u, 'arg_box', {}):
@@ -134,6 +157,10 @@ def native_unit_text(u, under):
         o.append('      if (!(fabsl(got - want) <= 1e-9L * sc_)) { printf("{\\"found\\": true, \\"function\\": \\"%s\\", "); dump();' % f.cname)
         o.append('        printf(", \\"args\\": [%s]", %s);' % (', '.join('\\"%.21Lg\\"' if k == 'scalar' else '%d' for t, n, k in sc),
                                                              ', '.join(names)) if names else '        printf(", \\"args\\": []");')
+        if wnames or (statics and f.ret == 'Sc'):
+            o.append('        dump_warm();')
+            o.append('        printf(", \\"warm_args\\": [%s]", %s);' % (', '.join('\\"%.21Lg\\"' if k == 'scalar' else '%d' for t, n, k in sc),
+                                                                  ', '.join(wnames)) if wnames else '        printf(", \\"warm_args\\": []");')
         o.append('        printf(", \\"got\\": \\"%.21Lg\\", \\"want\\": \\"%.21Lg\\", \\"tried\\": %ld}\\n", got, want, tried); return 0; }')
         o.append('    }\n    printf("{\\"found\\": false, \\"tried\\": %ld, \\"evaluated\\": %ld}\\n", tried, evald); return 0; }')
     o.append('  return 3; }')
@@ -166,6 +193,7 @@ using namespace MASA;
 %(extra)s
 int main() {
   %(cls)s<long double> o;
+%(warm)s
 %(sets)s
   long double r = o.%(method)s(%(args)s);
   std::printf("REAL %%.21Lg\n", r);
@@ -185,10 +213,15 @@ def replay_args(f, args):
     return out
 
 
-def replay_real(cls, src, method, members, args, workdir, extra='', header='masa_internal.h'):
-    """evaluate the REAL C++ member function (from /repo's working tree) at a concrete input -> long double as str"""
+def replay_real(cls, src, method, members, args, workdir, extra='', header='masa_internal.h', warm=None):
+    """evaluate the REAL C++ member function (from /repo's working tree) at a concrete input -> long double as str.
+    warm = (members, args): a first call in another parameter state (the history that initialises function-local statics, rule SLs)"""
     sets = '\n'.join('  o.set_var("%s", %sL);' % (k, _ld(v)) for k, v in members.items())
-    prog = REPLAY_TMPL % {'cls': cls, 'sets': sets, 'method': method, 'args': ', '.join(_arg(a) for a in args), 'extra': extra, 'header': header}     # smasa.h includes masa_internal.h itself (which has no include guard)
+    wtxt = ''
+    if warm and warm[0]:
+        wtxt = '  /* warm-up call of the history found by the native twin */\n' + '\n'.join('  o.set_var("%s", %sL);' % (k, _ld(v)) for k, v in warm[0].items()) + \
+               '\n  (void)o.%s(%s);' % (method, ', '.join(_arg(a) for a in warm[1]))
+    prog = REPLAY_TMPL % {'warm': wtxt, 'cls': cls, 'sets': sets, 'method': method, 'args': ', '.join(_arg(a) for a in args), 'extra': extra, 'header': header}     # smasa.h includes masa_internal.h itself (which has no include guard)
     os.makedirs(workdir, exist_ok=True)
     open(os.path.join(workdir, 'replay.cpp'), 'w').write(prog)
     srcs = [os.path.join(SRC, src)]
@@ -316,6 +349,7 @@ def run_numeric(prop, units, tier, seed, trusted_extra=(), design_ref='', lemmas
         per_fn.append({'function': f.cname + getattr(u, 'tag', ''), 'status': r.status, 'backend': r.backend, 'seconds': round(r.seconds, 2), 'canary': r.canary,
                        'obligations': len(r.obligations), 'source_sha256': f.sha})
         key = f.cname + getattr(u, 'key_suffix', '.contract')
+        frame_payload = None
         if r.status == 'discharged' and r.canary != 'reachable':
             # vacuity guard could not be decided by the solvers: fall back to concrete reachability of the contract's
             # precondition in the native twin (weaker: shows requires is satisfiable over the reals, not the axioms' consistency)
@@ -344,21 +378,33 @@ def run_numeric(prop, units, tier, seed, trusted_extra=(), design_ref='', lemmas
                 payload = {'function': f.cname, 'class': u.cls, 'source': u.src, 'method': f.name, 'status': 'refuted (frame)', 'source_sha256': f.sha,
                            'failed_obligations': frame_fail, 'detail': 'the function writes state outside its contract frame (assigns clause)',
                            'verifier_output': (r2.log or r.log)[-6000:], 'checker_cmd': r2.cmd}
-                if not rep.violation(key, payload, no_input=True):
-                    kf_obl += 1
-                continue
+                if getattr(f, 'statics', []) and f.ret == 'Sc':
+                    # rule SLs: the frame obligation fails because a function-local static is written; look for the two-call history that
+                    # shows the stale value on the real class before settling for the frame violation alone
+                    frame_payload = payload
+                else:
+                    if not rep.violation(key, payload, no_input=True):
+                        kf_obl += 1
+                    continue
         # not discharged: search for a concrete input, then replay on the real class
         found = native_search(u, u.under + getattr(u, 'bounded_fns', []), f, seed, N)
+        if frame_payload is not None and not found.get('found'):
+            if not rep.violation(key, frame_payload, no_input=True):
+                kf_obl += 1
+            continue
         rcls, rmeth, rextra = replay_target(u, f)
         payload = {'function': f.cname, 'class': rcls, 'source': u.src, 'header': u.header, 'method': rmeth, 'status': r.status, 'source_sha256': f.sha,
-                   'failed_obligations': r.failed, 'detail': r.detail, 'verifier_output': r.log[-8000:], 'checker_cmd': r.cmd,
+                   'failed_obligations': (frame_payload or {}).get('failed_obligations', []) + list(r.failed), 'detail': r.detail, 'verifier_output': r.log[-8000:], 'checker_cmd': r.cmd,
                    'native_search': found}
         if rextra:
             payload['replay_extra'] = rextra
         if found.get('found'):
+            warm_ = (found['warm_members'], replay_args(f, found.get('warm_args', []))) if found.get('warm_members') else None
             real, rlog = replay_real(rcls, u.src, rmeth, found['members'], replay_args(f, found['args']),
-                                     os.path.join(u.dir, 'replay_' + f.cname), header=u.header, extra=CB_EXTRA + rextra)
+                                     os.path.join(u.dir, 'replay_' + f.cname), header=u.header, extra=CB_EXTRA + rextra, warm=warm_)
             payload['replay_args'] = replay_args(f, found['args'])
+            if warm_:
+                payload['replay_history'] = 'set warm_members; call(warm_args); set members; call(args)  -- the first call initialises the function-local static(s)'
             payload['real_value'] = real
             payload['spec_value'] = found['want']
             payload['replay_log'] = rlog[-1500:]
@@ -366,6 +412,12 @@ def run_numeric(prop, units, tier, seed, trusted_extra=(), design_ref='', lemmas
                 if rep.violation(key, payload):
                     pass
                 else:
+                    kf_obl += 1
+                continue
+            if frame_payload is not None:
+                frame_payload['native_search'] = found
+                frame_payload['replay_log'] = str(rlog)[-1500:]
+                if not rep.violation(key, frame_payload, no_input=True):
                     kf_obl += 1
                 continue
             # the extracted text disagrees with the spec but the real class does not: extraction is wrong
@@ -391,8 +443,9 @@ def run_numeric(prop, units, tier, seed, trusted_extra=(), design_ref='', lemmas
             key = f.cname + getattr(u, 'key_suffix', '.contract')
             if found.get('found'):
                 rcls, rmeth, rextra = replay_target(u, f)
+                warm_ = (found['warm_members'], replay_args(f, found.get('warm_args', []))) if found.get('warm_members') else None
                 real, rlog = replay_real(rcls, u.src, rmeth, found['members'], replay_args(f, found['args']),
-                                         os.path.join(u.dir, 'replay_' + f.cname), header=u.header, extra=CB_EXTRA + rextra)
+                                         os.path.join(u.dir, 'replay_' + f.cname), header=u.header, extra=CB_EXTRA + rextra, warm=warm_)
                 payload = {'function': f.cname, 'class': rcls, 'source': u.src, 'header': u.header, 'method': rmeth, 'replay_extra': rextra, 'status': 'bounded stand-in found a counterexample',
                            'failed_obligations': [f.cname + '.bounded'], 'native_search': found, 'real_value': real, 'spec_value': found['want'],
                            'replay_args': replay_args(f, found['args']), 'replay_log': rlog[-1500:]}
